@@ -122,9 +122,18 @@ impl<S: Shape> MAnim<S> {
         }
     }
     pub fn advance(&mut self, dt: f32) {
-        self.t += Duration::from_secs_f32(dt);
+        // an amount (or a sum) beyond what a `Duration` holds: the time spent in the state is then "longer than
+        // anything"; the model's clock stops at the largest Duration
+        let d = Duration::try_from_secs_f32(dt).unwrap_or(Duration::MAX);
+        self.t = self.t.saturating_add(d);
         self.clock.add(dt);
         self.eval();
+    }
+    /// The time in the state is so long (2^40 s and more) that an f32 reading of it cannot resolve a cycle and
+    /// implementations may legitimately cap it differently: for a timeline that never ends the phase within the
+    /// cycle is then undetermined (values are not judged); a finite timeline is simply over.
+    pub fn huge(&self) -> bool {
+        self.t.as_secs_f64() >= 1.0995e12 || self.clock.t_true >= 1.0995e12
     }
     pub fn set_state(&mut self, s: usize) {
         if s == self.state {
@@ -332,6 +341,9 @@ pub fn random_history(r: &mut Rng, len: usize, grid: bool) -> Vec<Op> {
             ops.push(Op::Set(r.usize(5)));
         } else if grid {
             ops.push(Op::Adv(*r.pick(&[0.0f32, 0.001953125, 0.015625, 0.125, 0.25, 0.5, 1.0, 2.0, 7.5])));
+        } else if r.chance(1, 60) {
+            // longer than anything: beyond 2^40 s, beyond what a Duration holds (2^64 s), up to f32::MAX
+            ops.push(Op::Adv(*r.pick(&[2.0e12f32, 1.0e19, 1.9e19, 1.0e20, 3.0e30, f32::MAX])));
         } else {
             ops.push(Op::Adv(match r.below(5) {
                 0 => 0.0,
